@@ -8,7 +8,7 @@
 From LV Require Import Base.Bytes Base.Sx Model.Obj Model.Writer Model.Parser Model.Save Model.Xref Model.Loader
   Model.Utf Gen.Lex Proofs.LexProofs Proofs.ObjectRtProofs Proofs.SaveProofs Spec.SaveSpec Proofs.LoadProofs
   Proofs.LoadProofsFile Proofs.LoadProofsXref Proofs.LoadProofsTable Proofs.LoadProofsAgain Proofs.LoadProofsStream
-  Proofs.LoadProofsFull Spec.XrefSpec Gen.SaveFmt.
+  Proofs.LoadProofsFull Spec.XrefSpec Gen.SaveFmt Model.LoaderExt Proofs.LoaderExtProofs.
 
 Local Open Scope N_scope.
 
@@ -241,6 +241,30 @@ Theorem C01_full :
      same_doc d (reloaded xt (reloaded xt d))).
 Proof. exact load_save_full. Qed.
 
+(* (15) The loader model with Length references, object streams and a decompress parameter (Model/LoaderExt.v) is a
+   conservative extension of the one the theorems above are about: wherever Loader.load answers, load_ext answers
+   the same, for every decompress instance -- so C01_full holds for it as well. *)
+Theorem C01_loader_ext_conservative :
+  forall (decompress : dict -> bytes -> option (dict * bytes)) (can_decompress : dict -> bool) b,
+    load b <> LUnmodelled -> load_ext decompress can_decompress b = load b.
+Proof. exact load_ext_agrees. Qed.
+
+Theorem C01_full_ext :
+  forall decompress can_decompress xt d,
+    savable d -> known_deep d = false -> small_file xt d -> cycles_fit xt d ->
+    load_ext decompress can_decompress (so_bytes (save xt d)) = LOk (reloaded xt d) (xtype_of xt) /\
+    same_doc d (reloaded xt d) /\
+    (small_file xt (reloaded xt d) ->
+     load_ext decompress can_decompress (so_bytes (save xt (reloaded xt d))) = LOk (reloaded xt (reloaded xt d)) (xtype_of xt) /\
+     same_doc (reloaded xt d) (reloaded xt (reloaded xt d)) /\
+     same_doc d (reloaded xt (reloaded xt d))).
+Proof.
+  intros dc cd xt d S K Hs Hf. destruct (load_save_full xt d S K Hs Hf) as [L1 [D1 H2]].
+  split; [rewrite load_ext_agrees; [exact L1 | rewrite L1; discriminate]|]. split; [exact D1|].
+  intro Hs1. destruct (H2 Hs1) as [L2 [D2 D3]].
+  split; [rewrite load_ext_agrees; [exact L2 | rewrite L2; discriminate]|]. split; assumption.
+Qed.
+
 (* what same_doc says, clause by clause, for a document of the domain (no cross-reference stream object in it) *)
 Theorem C01_same_doc_reading :
   forall d d', savable d -> same_doc d d' ->
@@ -342,6 +366,8 @@ Print Assumptions C01_xref_stream_roundtrip.
 Print Assumptions C01_roundtrip_table.
 Print Assumptions C01_roundtrip_stream.
 Print Assumptions C01_full.
+Print Assumptions C01_loader_ext_conservative.
+Print Assumptions C01_full_ext.
 Print Assumptions C01_same_doc_reading.
 Print Assumptions C01_reloaded_in_domain.
 Print Assumptions C01_example_domain.
